@@ -1153,10 +1153,12 @@ func main() {
 		}
 	}
 	if got := refMnemonic(make([]byte, 16), wordlists.English); got != "abandon abandon abandon abandon abandon abandon abandon abandon abandon abandon abandon about" {
-		ev.Fatal("independent BIP-39 encoder is wrong: %s", got)
+		// the encoder is fixed code, the word list is the repository's: a list that is not the BIP-39 English list
+		// is outside the statement (round trips); the reference keeps using the same list as the implementation
+		run.Capped(fmt.Sprintf("BIP-39 anchor: could not be set up: the repository's English word list does not give the published vector: %s", got))
 	}
 	if got := refMnemonic(bytes.Repeat([]byte{0x7f}, 16), wordlists.English); got != "legal winner thank year wave sausage worth useful legal winner thank yellow" {
-		ev.Fatal("independent BIP-39 encoder is wrong: %s", got)
+		run.Capped(fmt.Sprintf("BIP-39 anchor: could not be set up: the repository's English word list does not give the published vector: %s", got))
 	}
 
 	a := newAcc()
